@@ -326,12 +326,12 @@ class WorkerPool:
   def call_and_wait(self, *args, courier_method='maybe_make', **kwargs) -> Any:
     """Calls the workers and waits for the results."""
     self._acquire_all()
-    states = [
-        c.call(*args, courier_method=courier_method, **kwargs)
-        for c in self._workers
-    ]
-    states = [state for state in states if state is not None]
     try:
+      states = [
+          c.call(*args, courier_method=courier_method, **kwargs)
+          for c in self._workers
+      ]
+      states = [state for state in states if state is not None]
       result = get_results(states)
     except Exception as e:  # pylint: disable=broad-exception-caught
       raise e
